@@ -8,8 +8,10 @@
 use std::cell::Cell;
 
 thread_local! {
-    static WORK_TICKS: Cell<u64> = const { Cell::new(0) };
-    static WORK_BUDGET: Cell<u64> = const { Cell::new(u64::MAX) };
+    /// Work units left before the budget is exceeded.
+    static REMAINING: Cell<u64> = const { Cell::new(u64::MAX) };
+    /// The budget `REMAINING` was last armed with.
+    static ARMED: Cell<u64> = const { Cell::new(u64::MAX) };
 }
 
 /// Payload of the panic raised when the work budget of this thread is exceeded.
@@ -21,14 +23,14 @@ pub struct WorkBudgetExceeded {
 
 /// Reset the work counter of this thread and set its budget.
 pub fn set_work_budget(budget: u64) {
-    WORK_TICKS.with(|t| t.set(0));
-    WORK_BUDGET.with(|b| b.set(budget));
+    REMAINING.with(|r| r.set(budget));
+    ARMED.with(|a| a.set(budget));
 }
 
 /// Number of work ticks on this thread since the last [`set_work_budget`].
 #[must_use]
 pub fn work_ticks() -> u64 {
-    WORK_TICKS.with(Cell::get)
+    ARMED.with(Cell::get) - REMAINING.with(Cell::get)
 }
 
 /// Called once per iteration of a scanner / parser / input loop.
@@ -44,12 +46,18 @@ pub fn work_tick() {
 /// budget is disarmed first so that unwinding code cannot panic again.
 #[inline]
 pub fn work_tick_n(n: u64) {
-    let ticks = WORK_TICKS.with(|t| {
-        t.set(t.get().saturating_add(n));
-        t.get()
+    let exceeded = REMAINING.with(|r| {
+        let left = r.get();
+        if left < n {
+            true
+        } else {
+            r.set(left - n);
+            false
+        }
     });
-    if ticks > WORK_BUDGET.with(Cell::get) {
-        WORK_BUDGET.with(|b| b.set(u64::MAX));
+    if exceeded {
+        let ticks = work_ticks().saturating_add(n);
+        set_work_budget(u64::MAX);
         std::panic::panic_any(WorkBudgetExceeded { ticks });
     }
 }
